@@ -127,18 +127,18 @@ Definition state_matches (s : cstate) (o_calls : list (list (uid * G))) (o_log :
   list_eqb ul_eqb (s_shown s) o_shown && ul_eqb (s_pop s) o_final.
 
 Inductive case :=
-| CLoop (k : kind) (p : evp) (w : list Z) (mu lam : nat)
+| CLoop (k : kind) (ngen : nat) (p : evp) (w : list Z) (mu lam : nat)
         (objs : list (uid * cind)) (pop : list uid) (gens : list obs_gen)
         (o_calls : list (list (uid * G))) (o_log : list crec) (o_shown : list (list uid))
         (o_final : list uid) (o_inplace : bool)
-| CHarm (p : evp) (w : list Z) (cxpb mutpb : Q) (nbrindsmodel : Z)
+| CHarm (ngen : nat) (p : evp) (w : list Z) (cxpb mutpb : Q) (nbrindsmodel : Z)
         (objs : list (uid * cind)) (pop : list uid) (gens : list (list cev))
         (o_calls : list (list (uid * G))) (o_log : list crec) (o_shown : list (list uid))
         (o_final : list uid) (o_inplace : bool).
 
 Definition check (c : case) : bool :=
   match c with
-  | CLoop k p w mu lam objs pop gens o_calls o_log o_shown o_final o_inplace =>
+  | CLoop k ngen p w mu lam objs pop gens o_calls o_log o_shown o_final o_inplace =>
       let st0 := add_objs empty_store objs in
       let s0 := match k with
                 | KGU => init st0 pop     (* pop = [] : the local `population` before the loop *)
@@ -146,13 +146,13 @@ Definition check (c : case) : bool :=
                 end in
       let first := match k with KGU => 0 | _ => 1 end in
       match check_gens p w k mu lam first s0 gens with
-      | Some s => state_matches s o_calls o_log o_shown o_final && o_inplace
+      | Some s => Nat.eqb (length gens) ngen && state_matches s o_calls o_log o_shown o_final && o_inplace
       | None => false
       end
-  | CHarm p w cxpb mutpb nbr objs pop gens o_calls o_log o_shown o_final o_inplace =>
+  | CHarm ngen p w cxpb mutpb nbr objs pop gens o_calls o_log o_shown o_final o_inplace =>
       let st0 := add_objs empty_store objs in
       match ea_harm (ev_fun p) (wfle w) cxpb mutpb nbr st0 pop gens with
-      | Ok s => state_matches s o_calls o_log o_shown o_final && o_inplace
+      | Ok s => Nat.eqb (length gens) ngen && state_matches s o_calls o_log o_shown o_final && o_inplace
       | _ => false
       end
   end.
@@ -160,22 +160,22 @@ Definition check (c : case) : bool :=
 (* diagnostic helper for development: the first component that differs (not used by the check) *)
 Definition why (c : case) : nat :=
   match c with
-  | CLoop k p w mu lam objs pop gens o_calls o_log o_shown o_final o_inplace =>
+  | CLoop k ngen p w mu lam objs pop gens o_calls o_log o_shown o_final o_inplace =>
       let st0 := add_objs empty_store objs in
       let s0 := match k with KGU => init st0 pop | _ => gen0 (ev_fun p) (wfle w) (init st0 pop) end in
       let first := match k with KGU => 0 | _ => 1 end in
       match check_gens p w k mu lam first s0 gens with
-      | Some s => if negb (calls_eqb (s_calls s) o_calls) then 1
+      | Some s => if negb (Nat.eqb (length gens) ngen) then 8 else if negb (calls_eqb (s_calls s) o_calls) then 1
                   else if negb (list_eqb rec_eqb (s_log s) o_log) then 2
                   else if negb (list_eqb ul_eqb (s_shown s) o_shown) then 3
                   else if negb (ul_eqb (s_pop s) o_final) then 4
                   else if negb o_inplace then 5 else 0
       | None => 9
       end
-  | CHarm p w cxpb mutpb nbr objs pop gens o_calls o_log o_shown o_final o_inplace =>
+  | CHarm ngen p w cxpb mutpb nbr objs pop gens o_calls o_log o_shown o_final o_inplace =>
       let st0 := add_objs empty_store objs in
       match ea_harm (ev_fun p) (wfle w) cxpb mutpb nbr st0 pop gens with
-      | Ok s => if negb (calls_eqb (s_calls s) o_calls) then 1
+      | Ok s => if negb (Nat.eqb (length gens) ngen) then 8 else if negb (calls_eqb (s_calls s) o_calls) then 1
                 else if negb (list_eqb rec_eqb (s_log s) o_log) then 2
                 else if negb (list_eqb ul_eqb (s_shown s) o_shown) then 3
                 else if negb (ul_eqb (s_pop s) o_final) then 4
